@@ -499,7 +499,11 @@ def answer (s : AState) (slot : Option Nat) (m : Nat) : AState :=
           { r with st := .answered { m, birth := s.birth, digest := s.log } }
         else r) }
 
-def stepCbEnd (s : AState) (cb : Cb) (ok : Bool) : Option AState :=
+/-- `R::refresh` aborts the timers of the incarnation that just stopped (if the source does). -/
+def refreshTimers (w : Wiring) (s : AState) : AState :=
+  if w.refreshResetsTimers then s.killTimers else s
+
+def stepCbEnd (w : Wiring) (s : AState) (cb : Cb) (ok : Bool) : Option AState :=
   if !s.workDone then none else
   match cb, s.phase with
   | .started, .starting =>
@@ -513,7 +517,7 @@ def stepCbEnd (s : AState) (cb : Cb) (ok : Bool) : Option AState :=
   | .stopped, .stopping =>
     if ok then some { s with phase := .exiting true, busy := none } else none
   | .stopped, .rstStopping =>
-    if ok then some { s with phase := .rstStopped false, busy := none } else none
+    if ok then some { (s.refreshTimers w) with phase := .rstStopped false, busy := none } else none
   | _, _ => none
 
 def openCb (s : AState) : Option Cb :=
@@ -721,7 +725,7 @@ def step (w : Wiring) (s : AState) : Label → Option AState
   | .restartReq h ok => s.stepSignal w h .restart (w.path .addrRestart) ok
   | .query h b => s.stepQuery w h b
   | .cbBegin cb => s.stepCbBegin w cb
-  | .cbEnd cb ok => s.stepCbEnd cb ok
+  | .cbEnd cb ok => s.stepCbEnd w cb ok
   | .cbAbandon cb => s.stepCbAbandon cb
   | .cbPanic cb => s.stepCbPanic cb
   | .vnew b => s.stepVnew b
